@@ -103,7 +103,9 @@ impl System for Sys {
                     let o = obs(&st.vt);
                     let want_pen = PenObs::of(&pen);
                     for (i, r) in o.rows.iter().enumerate() {
-                        if r.cells.iter().any(|c| *c != (' ', want_pen)) {
+                        // blank means blank: no character, the current pen, and no soft-wrap mark
+                        // left over from an earlier visit
+                        if r.cells.iter().any(|c| *c != (' ', want_pen)) || r.wrapped {
                             out.violate(
                                 "C16",
                                 "blank-alternate-screen-on-entry",
@@ -299,6 +301,41 @@ fn alpha_ls(cfg: &Cfg) -> Vec<Op> {
 }
 
 static LS: LockStep = LockStep { property: "C16", probes: true, seed: None };
+/// the core of the excursions over a small alphabet, much deeper: what one visit leaves
+/// behind on the alternate screen (wrap marks, wiped rows, regions, pens) must not be there
+/// on the next one, and nothing of it on the primary
+fn alpha_core(cfg: &Cfg) -> Vec<Op> {
+    let cols = cfg.cols as u32;
+    let over: String = "abcdefghij".chars().take(cfg.cols + 1).collect();
+    vec![
+        c(DecSet(vec![1049])),
+        c(DecRst(vec![1049])),
+        Op::text(&over),
+        c(El(Some(1))),
+        c(El(Some(2))),
+        c(Ed(Some(1))),
+        c(Cup(Some(1), Some(cols))),
+        c(Cup(Some(2), Some(1))),
+        c(sgr1(41)),
+    ]
+}
+
+fn core_part(tier: Tier) -> Part<'static, Sys> {
+    Part {
+        name: "excursions-core-deep",
+        sys: &Sys,
+        cfgs: match tier {
+            Tier::Quick => cfgs(&[(3, 2)], &[None]),
+            Tier::Thorough => cfgs(&[(3, 2), (4, 3), (2, 2)], &[None, Some(0), Some(2)]),
+        },
+        alphabet: &alpha_core,
+        depth: tier.pick(8, 10),
+        seconds: tier.pick(20.0, 1800.0),
+        validated: true,
+        nontrivial: Some("calls_on_alternate_screen"),
+    }
+}
+
 static LS_REGIONS: LockStep = LockStep { property: "C16", probes: false, seed: None };
 
 /// excursions from and into screens with scroll regions and origin mode: what the program
@@ -384,6 +421,7 @@ pub fn run(ctx: &Ctx) -> Report {
     run_part(ctx, &mut rep, &frame);
     run_part(ctx, &mut rep, &ls);
     run_part(ctx, &mut rep, &regions_part(ctx.tier));
+    run_part(ctx, &mut rep, &core_part(ctx.tier));
     run_part(ctx, &mut rep, &super::sweep::mode_part(&SYS_MODES, ctx.tier));
     super::sweep::mode_number_sweep(ctx, &mut rep, &SYS_MODES);
     rep.rule = "BFS over histories mixing primary-screen edits, entry by 47/1047/1049, everything executable on the alternate screen (prints, scrolls, IL/DL, ED/EL, DECALN, ICH/DCH, margins, save/restore, DECSTR, RI), exit by 47/1047/1049 and four resizes; frame oracle: blank alternate screen in the current pen on entry, text() constant throughout, primary lines() identical after leaving (size unchanged) or re-wrapped-not-altered by the C10 relation (size changed), 1049 pair restores the cursor; plus a lock-step run of the buffer switches against the reference terminal; non-trivial = calls executed while the alternate screen is showing".into();
@@ -400,6 +438,7 @@ pub fn replay(ctx: &Ctx, v: &Value) -> bool {
     match v["part"].as_str().unwrap_or("") {
         "excursions-frame-oracle" => replay_part(ctx, &frame, v),
         "excursions-with-regions-lockstep" => replay_part(ctx, &regions_part(tier), v),
+        "excursions-core-deep" => replay_part(ctx, &core_part(tier), v),
         "every-mode-number" => super::sweep::mode_number_replay(ctx, &SYS_MODES),
         "mode-list-shapes" => replay_part(ctx, &super::sweep::mode_part(&SYS_MODES, tier), v),
         _ => replay_part(ctx, &ls, v),
